@@ -226,6 +226,32 @@ def _run_scenario(sc, fault, env, res):
                     if not rd_.finalized:
                         errs.append("render data #%d not finalized when the failed construction (%s: %s) reached the caller; only the garbage collector would do it" % (S.created.index(tok), how, type(e).__name__))
                 rd_ = None
+        elif kind == "from_data_setup_fails":
+            # an iterator over handed-in data cannot be set up (a padding that refuses the
+            # render size, a frame cache that cannot be allocated): data the caller keeps
+            # (finalize=False) is left alone, data given away is finalized -- there is no
+            # iterator to close
+            from term_image.padding import ExactPadding as _EP
+
+            class Refusing(_EP):
+                def _get_exact_dimensions_(self, render_size):
+                    raise ValueError("the render does not fit this box")
+
+            keep = sc.get("setup_keep", True)
+            how = sc.get("setup_fault", "padding")
+            owner = subj if how == "padding" else type(subj)(2**63, 1, sc["size"], "text")
+            rd = owner._get_render_data_(iteration=True)
+            if keep:
+                kept.append(rd[S.Subj].token)
+                kept_data.append(rd)
+            try:
+                RenderIterator._from_render_data_(owner, rd, None, Refusing() if how == "padding" else _EP(), sc["loops"], True if how == "cache" else sc["cache"], finalize=not keep)
+                errs.append("an iterator that cannot be set up was constructed from handed-in data (%s)" % how)
+            except (ValueError, OverflowError, MemoryError) as e:
+                res.count("failed set-ups over handed-in data (%s, %s)" % (how, "kept" if keep else "given away"))
+                if not keep and not rd.finalized:
+                    errs.append("handed-over render data (finalize=True) not finalized when the failed construction (%s: %s) reached the caller" % (how, type(e).__name__))
+            del rd
         elif kind == "from_data_reuse":
             # data that has been finalized (its owning iterator ended, one way or another)
             # is offered to a second iterator: to be refused, whoever would own it -- no
@@ -352,7 +378,7 @@ def _run_scenario(sc, fault, env, res):
 
 
 def gen_scenario(rnd):
-    kind = rnd.choice(["str", "render", "draw_still", "draw_anim", "draw_anim", "iter_dunder", "iter_full", "iter_close", "iter_drop", "iter_seek", "from_data_own", "from_data_keep", "from_data_reuse", "ctor_fails", "iter_reentrant_close", "two_iters", "two_iters"])
+    kind = rnd.choice(["str", "render", "draw_still", "draw_anim", "draw_anim", "iter_dunder", "iter_full", "iter_close", "iter_drop", "iter_seek", "from_data_own", "from_data_keep", "from_data_reuse", "from_data_setup_fails", "ctor_fails", "iter_reentrant_close", "two_iters", "two_iters"])
     sc = dict(kind=kind, size=[rnd.randint(1, 4), rnd.randint(1, 3)], loops=rnd.choice([1, 2, 3]), cache=rnd.choice([False, True, 2, 100]), steps=rnd.randint(0, 8), seeks=[rnd.randint(0, 5) for _ in range(4)])
     if kind in ("str", "render", "draw_still") and rnd.random() < 0.5:
         sc["n"] = 1
@@ -372,6 +398,11 @@ def gen_scenario(rnd):
         sc["deep"] = True
     if kind == "from_data_reuse":
         sc["reuse_owns"] = rnd.random() < 0.5
+    if kind == "from_data_setup_fails":
+        sc["setup_keep"] = rnd.random() < 0.6
+        sc["setup_fault"] = rnd.choice(["padding", "cache"])
+        sc.pop("indef_len", None)
+        sc["n"] = sc["n"] or 3
     if kind == "two_iters":
         sc["modes"] = [rnd.choice(["keep", "own", "ctor", "draw"]) for _ in range(rnd.randint(2, 3))]
         sc["end_order"] = rnd.sample(range(3), 3)
